@@ -32,7 +32,9 @@ MANIFEST = {
             "offsets, every stored offset/size equals the real one at exit, header offSize fits) over all section-size "
             "vectors that put stored offsets next to the DICT-integer size-class boundaries and the 64 KiB mark, for "
             "simple and CID-keyed layouts with 1-3 font DICTs. TLC then enumerates structure descriptors of fonts "
-            "(glyph-name/CID run structures, FDSelect patterns, encodings incl. supplements and predefined ones, "
+            "(glyph-name/CID run structures, FDSelect patterns, the upper end and the value below it of every count field: "
+            "255/256 private dictionaries with FDSelect formats 3 and 0, 65534/65535 glyphs, CID 65535, 254-256 encoded "
+            "codes, 255 supplements, encodings incl. supplements and predefined ones, "
             "integer/fractional width patterns, DICT integers at every size class, reals with 1-9 digits and exponents "
             "to +-290, every shape of a DICT real (sign x 1-9 significant digits x decimal-point position from 0.0000ddd "
             "to ddd0000 and exponent forms) in every float-typed field (FontMatrix, FD FontMatrix, StdHW, StdVW, BlueScale, "
@@ -401,6 +403,11 @@ def run(ctx):
     shapes = pool.add(_gen(ctx, "shapes", label="CFFLayoutGen shapes (exhaustive)"))
     bad += _validate_all(ctx, binp, shapes, "shapes", stats)
 
+    # 2a''. the upper end (and the value below it) of every count field: 255 / 256 private dictionaries with both
+    # FDSelect formats, 65534 / 65535 glyphs, CID 65535 (encoding counts 255 / 256 are part of "ofat")
+    maxima = pool.add(_gen(ctx, "maxima", label="CFFLayoutGen maxima (exhaustive)"))
+    bad += _validate_all(ctx, binp, maxima, "maxima", stats, chunk=1)
+
     # 2b. paddings that move every stored offset across every boundary
     kinds = (0, 2) if ctx.quick() else (0, 1, 2, 3)
     jlo, jhi = (-7, 1) if ctx.quick() else (-14, 3)
@@ -429,9 +436,9 @@ def run(ctx):
         bad += _validate_all(ctx, binp, big, "big", stats, chunk=2)
 
     ctx.cov["distinct_nontrivial"] = pool.n
-    ctx.cov["rule"] = ("distinct abstract fonts generated by TLC (ofat %d + real-number shapes %d + sweep %d + rand %d + big %d), each written by "
+    ctx.cov["rule"] = ("distinct abstract fonts generated by TLC (ofat %d + real-number shapes %d + count maxima %d + sweep %d + rand %d + big %d), each written by "
                        "the library, walked, read back and judged by TLC; evaluations = recorded events validated"
-                       % (len(ofat), len(shapes), len(sweep), len(rand), nbig))
+                       % (len(ofat), len(shapes), len(maxima), len(sweep), len(rand), nbig))
     ctx.cov["bounds"]["recorded_files"] = stats.summary()
     if bad:
         _report(ctx, bad)
